@@ -421,8 +421,11 @@ def scan_lexicons(source: AnyPath) -> list[ScanInfo]:
         flags=re.M
     )
 
-    # comments and CDATA sections may contain text that looks like tags
-    skip_re = re.compile(b'<!--.*?-->|<!\\[CDATA\\[.*?\\]\\]>', flags=re.S)
+    # comments, CDATA sections and processing instructions may contain
+    # text that looks like tags
+    skip_re = re.compile(
+        b'<!--.*?-->|<!\\[CDATA\\[.*?\\]\\]>|<\\?.*?\\?>', flags=re.S
+    )
 
     with open(source, 'rb') as fh:
         for m in lex_re.finditer(skip_re.sub(b'', fh.read())):
